@@ -228,7 +228,7 @@ func CheckC13(r *Run) int {
 	if quick {
 		nHole, nLex = min(nHole, 100), min(nLex, 24)
 	} else {
-		nHole, nLex = min(nHole, 6000), min(nLex, 1500)
+		nHole, nLex = min(nHole, 2000), min(nLex, 400)
 	}
 	holeEdits, lexEdits := edits[:nHole], edits[len(edits)-nLex:]
 	edits = holeEdits
@@ -297,7 +297,8 @@ func CheckC13(r *Run) int {
 	}
 	stmtMenu := []string{"break", "continue", "return", "return 1", "return 1, 2", "gv", "1", "\"s\"", "(gv)", "void()", "print(void())", "panic(void())", "x := void()", "gv = void()",
 		"@ls(void())", "switch void() {\n}", "len(gsl)", "gsl[0]", "gs[0]", "gs[0:1]", "copy(gsl, gsl)", "itoa(gv)", "exists(gs)", "read(gs)", "input()", "two()", "x := two()", "gv, gs = two()",
-		"var y int", "y := []int{}", "func inner() {\n}", "import \"strings\"", "gv++", "gv += void()", "for {\n}", "if void() {\n}", "gsl[void()] = 1", "gsl[0] = void()", "write(gs, void())", "{", "}"}
+		"var y int", "y := []int{}", "func inner() {\n}", "import \"strings\"", "gv++", "gv += void()", "for {\n}", "if void() {\n}", "gsl[void()] = 1", "gsl[0] = void()", "write(gs, void())", "{", "}",
+		"print(\"hello\"[1])", "x := \"abc\"[0:2]", "print(`raw`[1:])", "return \"xyz\"[2]", "gs = \"s\"[0]", "print([]int{1}[0])", "print(len(\"abc\"[1:]))", "print((gs)[0])", "print(itoa(1)[0])", "print(void()[0])"}
 	st = r.Eng.Explore(func(c *gosym.Ctx) interface{} {
 		ctx := ctxMenu[c.Choose("context", 0, len(ctxMenu)-1)]
 		stm := stmtMenu[c.Choose("statement", 0, len(stmtMenu)-1)]
